@@ -15,10 +15,21 @@ import txdbus.client
 from txdbus import message, interface, introspection
 
 ACTIONS = {'EpFail': ('why',), 'EpOk': (), 'AuthOk': (), 'AuthRefused': (), 'HelloOk': (), 'HelloErr': (), 'Close': (), 'Quiet': (),
-           'IssueCall': ('k', 't'), 'ReplyCall': ('k',), 'Register': ('x', 'w'), 'DropProxy': ('x',)}
+           'IssueCall': ('k', 't'), 'ReplyCall': ('k',), 'ExpireCall': ('k',), 'Register': ('x', 'w'), 'DropProxy': ('x',)}
 OBS = ['tried', 'fired', 'nfired', 'call', 'timers', 'ran', 'late']
-KINDS = ['unix:path=/tmp/verif-sock-%d', 'tcp:host=h%d.example,port=%d', 'nonce-tcp:host=n%d.example,port=%d,noncefile=/x',
-         'unix:abstract=verif%d']
+KINDS = ['unix:path=/tmp/verif-sock-%d', 'unix:abstract=verif%d', 'tcp:host=h%d.example,port=%d',
+         'nonce-tcp:host=n%d.example,port=%d,noncefile=/x']
+
+
+def expected_destination(i):
+    k = i % len(KINDS)
+    if k == 0:
+        return ('unix', '/tmp/verif-sock-%d' % i)
+    if k == 1:
+        return ('unix', '\0verif%d' % i)
+    if k == 2:
+        return ('tcp', 'h%d.example' % i, 4000 + i)
+    return ('tcp', 'n%d.example' % i, 4000 + i)
 XML = ('<!DOCTYPE node PUBLIC "-//freedesktop//DTD D-BUS Object Introspection 1.0//EN"\n'
        '"http://www.freedesktop.org/standards/dbus/1.0/introspect.dtd">\n<node name="/o">\n'
        '  <interface name="org.verif.Remote%d"><method name="Ping"></method></interface>\n</node>')
@@ -66,6 +77,14 @@ class ConnDriver:
         return getattr(self, '_after_close', False)
 
     def attempts(self):
+        """number of connection attempts so far - negative if one of them went to another address than
+        the one listed at that position"""
+        for i, c in enumerate(self.r.connectors):
+            d = c.getDestination()
+            nm = d.name.decode('latin-1') if isinstance(getattr(d, 'name', None), bytes) else getattr(d, 'name', None)
+            got = ('unix', nm) if d.__class__.__name__ == 'UNIXAddress' else ('tcp', d.host, d.port)
+            if got != expected_destination(i):
+                return -(i + 1)
         return len(self.r.connectors)
 
     def apply(self, name, args):
@@ -140,8 +159,8 @@ class ConnDriver:
     def do_IssueCall(self, k, t):
         kw = {}
         if t:
-            self.target[k] = self.r.seconds() + 500 + k
-            kw['timeout'] = 500 + k
+            self.target[k] = self.r.seconds() + 500 + 7 * k
+            kw['timeout'] = 500 + 7 * k
         d = self.conn.callRemote('/o', 'M%d' % k, interface='org.ex.I', destination='org.ex.D', **kw)
         d.addCallbacks(lambda v, k=k: self._callres(k, 'ok'), lambda f, k=k: self._callres(k, f))
         out = fakes.parse_all(self.t.take())
@@ -152,8 +171,18 @@ class ConnDriver:
         if self.closed_done():
             self.late += 1
         if what != 'ok':
-            what = 'lost' if what is getattr(self, 'reason', None) else 'other:' + type(what.value).__name__
+            from txdbus import error as txerror
+            what = 'lost' if what is getattr(self, 'reason', None) else \
+                'timeout' if isinstance(what.value, txerror.TimeOut) else 'other:' + type(what.value).__name__
         self.callres[k].append(what)
+
+    def do_ExpireCall(self, k):
+        # let exactly this deadline pass (as if the call had been given a shorter timeout)
+        dcs = [dc for dc in self.r.getDelayedCalls() if dc.active() and dc.getTime() == self.target[k]]
+        assert len(dcs) == 1, dcs
+        dcs[0].reset(0)
+        self.target[k] = self.r.seconds()
+        self.r.advance(0)
 
     def do_ReplyCall(self, k):
         r = message.MethodReturnMessage(self.serial[k], destination=':1.42')
@@ -321,7 +350,12 @@ def run(tier, seed):
                             issued.add(k)
                             a = ('IssueCall', (k, rng.random() < 0.5))
                         elif r < 0.4 and out:
-                            a = ('ReplyCall', (rng.choice(out),))
+                            k = rng.choice(out)
+                            timed = [kk for kk in out if kk in drv.target]
+                            if k in drv.target and rng.random() < 0.5:
+                                a = ('ExpireCall', (k,))
+                            else:
+                                a = ('ReplyCall', (k,))
                         elif r < 0.7 and unreg:
                             x = rng.choice(unreg)
                             regs[x] = rng.choice(['conn', 'explicit', 'intro', 'intro'])
